@@ -628,3 +628,37 @@ Fixpoint run_calls (E : env) (raws : list rt) : list (res te) :=
   | [] => []
   | r :: rest => let st := call_step E r in snd st :: run_calls (fst st) rest
   end.
+
+(* ------------------------------------------------------------------ *)
+(* read-only entry points between the calls                            *)
+
+(* Besides parse()/cleanup() a parser object has entry points that only report:
+   print_detailed_descr() / ParserSummary.gen_detailed_descr(),
+   StdCleanuper.gen_detailed_descr(), is_ambiguous(), str()/repr() of the parser,
+   of its templates and production rules, reading the public tables
+   (parse_table, prods_map, terminals, prod_templates), the text of a raised
+   ParsingError, the printers and finders of a returned TElement.  The parser
+   value of the model is immutable: such a step [HLook what] (what = which
+   entry point, only a label) returns nothing and leaves the state as it is. *)
+Inductive hop :=
+| HCall (raw : rt)          (* parse(..) / cleanup(..): the raw tree of that call *)
+| HLook (what : Z).         (* a read-only entry point *)
+
+Definition hop_step (E : env) (o : hop) : env * option (res te) :=
+  match o with
+  | HCall r => let st := call_step E r in (fst st, Some (snd st))
+  | HLook _ => (E, None)
+  end.
+
+Fixpoint run_ops (E : env) (ops : list hop) : list (option (res te)) :=
+  match ops with
+  | [] => []
+  | o :: rest => let st := hop_step E o in snd st :: run_ops (fst st) rest
+  end.
+
+Fixpoint calls_of (ops : list hop) : list rt :=
+  match ops with
+  | [] => []
+  | HCall r :: rest => r :: calls_of rest
+  | HLook _ :: rest => calls_of rest
+  end.
